@@ -69,6 +69,9 @@ bool prop_run(Tape &t, Report &r) {
       for (int lag = -L; lag <= L; lag++) { double sacc = 0; const float *x = e.in[cc].data() + base, *y = e.out[cc].data() + base + lag; for (int i = 0; i < W; i++) sacc += (double)x[i] * y[i]; if (lag == 0) c0 = sacc; if (sacc > best) { best = sacc; bestlag = lag; } }
       double ex = 0, ey = 0; { const float *x = e.in[cc].data() + base, *y = e.out[cc].data() + base; for (int i = 0; i < W; i++) { ex += (double)x[i] * x[i]; ey += (double)y[i] * y[i]; } }
       if (ex < 1e-4 || best < 0.2 * sqrt(ex * ey + 1e-30)) { r.label("alignment undecidable (too little correlated energy in the window)"); }
+      // a flat maximum (the heavily low-passed LFE channel of 5.1: the cross-correlation is the low-pass's own broad impulse response) does not
+      // locate the lag: only a maximum that exceeds lag 0 by more than the estimate's own noise decides
+      else if (bestlag != 0 && best - c0 <= std::max(0.1 * best, 0.03 * sqrt(ex * ey))) { r.label("alignment undecidable (flat correlation maximum)"); }
       else if (bestlag != 0) return r.fail("channel %d: the output is best aligned with the input at lag %d samples (correlation %.4g there, %.4g at lag 0) [%s]", cc, bestlag, best, c0, cd.c_str());
       else r.label("alignment checked (lag 0 is the correlation maximum)");
     }
